@@ -777,6 +777,11 @@ class DataOps:
         groups = [idx[a:b] for a, b in zip([0] + cuts, cuts + [n])]
         if o['flag2'] and len(groups) > 1:
             groups = groups[:-1]   # bins need not cover all time points
+        if o['a'][3] % 5 == 2 and len(groups) > 1:
+            # sliding windows: every bin also takes the first time point of the next one (bins may overlap; each is the mean
+            # of all the time points it lists)
+            groups = [g + [groups[i_ + 1][0]] if i_ + 1 < len(groups) else list(g) for i_, g in enumerate(groups)]
+            self.ctx.probe('overlapping_bins')
         bins = [np.array([tv[i] for i in g]) for g in groups]
         present = [np.array(b, copy=True) for b in bins]
         if o['a'][3] % 4 == 0:
